@@ -6,7 +6,7 @@ import lib
 ID = "C04"
 PROP_FILE = "props/C04.v"
 COQ_TARGETS = ["props/C04.v"]
-THEOREMS = ["C04_fold", "C04_before_stmt"]
+THEOREMS = ["C04_fold", "C04_before_stmt", "C04_tracer_fold_any_event", "C04_stack_fold_any_event"]
 TRUSTED_BASE = [
     "Coq 8.16.1 kernel, vm_compute for the in-coqc correspondence",
     "translator tools/translators/gen_emitret.py (handle_normal/skipall_emit_return, make_ret regenerated every run)",
@@ -258,6 +258,75 @@ def model_view(case, parsed):
     return {"x": v, "rec": []}, mlog, list(flags)
 
 
+# ---------------------------------------------------------------- K-sysfold: system events through one tracer's own fold
+SYS_EVENTS = {"call": "E_call", "exception": "E_exception", "return_": "E_return_", "line": "E_line"}
+
+
+def gen_sys_case(rng):
+    event = rng.choice(["call", "call", "exception", "exception", "return_", "line"])
+    hs = []
+    for _ in range(rng.choice([1, 2, 2, 3, 3, 4])):
+        table = {}
+        for _ in range(rng.choice([0, 0, 1, 2])):
+            table[json.dumps(rng.choice([["none"], ["sys"]] + [["u", n] for n in range(0, 30)]))] = gen_outcome(rng, "after_assign_rhs")
+        hs.append({"pred": rng.choice([None, None, None, True, False]), "table": table, "default": gen_outcome(rng, "after_assign_rhs")})
+    return {"event": event, "init": rng.randrange(31, 60), "handlers": hs}
+
+
+def sys_pat(seen):
+    return "RSysTracer" if seen == ["sys"] else coq_rv_pat(seen)
+
+
+def k_sysfold(ctx, rng, n):
+    cases = [gen_sys_case(rng) for _ in range(n)]
+    # directed: what the unified return rule repaired (ed.. 'call' / 'exception': nothing after a replacement, Null then nothing, Skip, raise)
+    H = lambda o: {"pred": None, "table": {}, "default": o}
+    for ev in ("call", "exception"):
+        for seq in ([["val", 5], ["none"]], [["null"], ["none"]], [["none"], ["none"]], [["val", 5], ["skip"], ["val", 6]], [["val", 5], ["raise"]], [["val", 5], ["skipall"]],
+                    [["none"], ["skipall"]]):
+            cases.append({"event": ev, "init": 41, "handlers": [H(o) for o in seq]})
+    rc, res, o = lib.impl_run("c04_sysfold.py", cases, timeout=300)
+    if res is None:
+        raise RuntimeError("K-sysfold harness failed:\n" + o[-2000:])
+    L = ["From Coq Require Import List NArith Bool.", "Import ListNotations.", "From PyccoloV Require Import gen.Events model.Val model.Rt."]
+    for c in cases:
+        hs = []
+        for h in c["handlers"]:
+            arms = "".join(" | %s => %s" % (sys_pat(json.loads(k)), coq_out(o_)) for k, o_ in h["table"].items())
+            hs.append("{| h_reentrant := false; h_guard_skip := false; h_pred := %s; h_fun := (fun v => match v with%s | _ => %s end) |}"
+                      % ("false" if h["pred"] is False else "true", arms, coq_out(h["default"])))
+        t = "{| t_hard_disabled := false; t_allow_reentrant := false; t_multi_thread := false; t_file_ok := true; t_propagate := false; t_handlers := [%s] |}" % "; ".join(hs)
+        init = "RSysTracer" if c["event"] == "call" else "(RUser %d%%N false)" % c["init"]
+        L.append("Eval vm_compute in (let '(r, _, log) := tracer_emit %s false 0 %s %s None [] in (r, log))." % (SYS_EVENTS[c["event"]], t, init))
+    rc_, out = lib.coq_eval("c04_ksysfold", "\n".join(L) + "\n", timeout=600)
+    vals = lib.parse_marked(out) if rc_ == 0 else []
+    if rc_ != 0 or len(vals) != len(cases):
+        ctx.tie_broken("correspondence", "K-sysfold: coqc failed (%d values for %d cases)" % (len(vals), len(cases)), out[-2000:])
+        return 0, len(cases)
+
+    def view(r):
+        return ["sys"] if r == "RSysTracer" else rv_view(r)
+    bad, okc = [], 0
+    for c, im, v in zip(cases, res, vals):
+        r, log = lib.parse_coq_list(v)
+        mlog = [[ti, hi, view(x)] for ti, hi, x in log]
+        if r == "TRaised":
+            m = {"exc": "RuntimeError"}
+        elif isinstance(r[1], tuple) and r[1][0] == "RTuple2":
+            m = {"skipall": True, "value": view(r[1][2])}
+        else:
+            m = {"skipall": False, "value": view(r[1])}
+        obs = {k: im[k] for k in ("skipall", "value", "exc") if k in im}
+        if "crash" in im or m != obs or mlog != im["log"]:
+            bad.append({"case": c, "model": [m, mlog], "impl": im})
+        else:
+            okc += 1
+    if bad:
+        ctx.tie_broken("correspondence", "K-sysfold: model/Rt.v tracer_emit and tracer._sys_tracer / _emit_event disagree on %d of %d system-event folds" % (len(bad), len(cases)),
+                       json.dumps(bad[0])[:2500])
+    return okc, len(cases)
+
+
 def run_impl(cases):
     rc, res, out = lib.impl_run("c04_rt.py", cases, timeout=900)
     if res is None:
@@ -353,6 +422,8 @@ def run(ctx, model_ok):
                     validated += 1
         if mism:
             ctx.tie_broken("correspondence", "model/Rt.v and the runtime disagree on %d of %d cases" % (len(mism), len(cases)), json.dumps(mism[0])[:3000])
+    ksys_ok, ksys_n = k_sysfold(ctx, rng, 120 if ctx.tier == "quick" else 1500) if model_ok else (0, 0)
+    validated += ksys_ok
     hist, kinds = {}, {}
     for c in cases:
         hist[c["event"]] = hist.get(c["event"], 0) + 1
@@ -365,9 +436,10 @@ def run(ctx, model_ok):
         "rule": "random arrangements: 1-3 tracers x 0-4 handlers on one event (after_assign_rhs / before_stmt / before_assign_rhs), outcomes "
                 "{nothing, value, falsy value, Null, Skip, SkipAll, raise, Pass, thunk} possibly depending on the value seen, conditions, "
                 "hard-disabled / file-filtered / propagating tracers; non-trivial = >=2 handlers; distinct by sha1; "
-                "thorough adds ALL outcome sequences of length <=4 over 7 kinds x every split over two tracers",
+                "thorough adds ALL outcome sequences of length <=4 over 7 kinds x every split over two tracers; K-sysfold: 120 arrangements of 1-4 scripted "
+                "handlers on call / exception / return / line through one tracer's own fold (tracer._sys_tracer), compared with tracer_emit",
         "samples": [cases[0], cases[-1]], "traces_validated": validated,
-        "distribution": {"events": hist, "outcome_kinds": kinds},
+        "distribution": {"events": hist, "outcome_kinds": kinds, "system_event_folds_agreeing_with_model": ksys_ok},
         "failures": failures,
         "extra": {"model_impl_disagreements": len(mism), "exhaustive": exhaustive},
     }
